@@ -47,6 +47,10 @@ static ZoneRec& zone(size_t i) {
 }
 
 static int64_t rnd_instant(sup::Rng& r, const ZoneRec& z) {
+  if (r.chance(0.04)) {
+    static const int64_t k[] = {INT64_MIN, INT64_MIN + 1, INT64_MAX, INT64_MAX - 1, 0, -1, 1, -62135596800LL, -62135596801LL, 253402300799LL, 253402300800LL};
+    return k[r.range(0, 10)];
+  }
   switch (r.range(0, 8)) {
     case 0: return (int64_t)r.next();
     case 1: return r.range(-3000000000LL, 5000000000LL);
